@@ -138,7 +138,11 @@ func genMD(r *rand.Rand) string {
 			continue
 		}
 		seen[lk] = true
-		v := strings.TrimSpace(randText(r, 14, "abcdefghijklmnopqrstuvwxyzABCDEFXYZ0123456789   -_.=/:,;+!?()*"))
+		// gRPC carries a value as written, white space at its ends included: mostly trimmed texts, sometimes not
+		v := randText(r, 14, "abcdefghijklmnopqrstuvwxyzABCDEFXYZ0123456789   -_.=/:,;+!?()*<>&'")
+		if r.Intn(4) != 0 {
+			v = strings.TrimSpace(v)
+		}
 		if r.Intn(6) == 0 {
 			v = "Bearer " + randText(r, 10, "abcdef0123456789")
 		}
@@ -196,6 +200,56 @@ func tmoKV(r *rand.Rand) string {
 	return fmt.Sprintf("tmo=%d", pick(r, tmoChoices))
 }
 
+// netKV: where the method descriptors come from. rp=1: a separate reflection endpoint on another port (the target
+// itself does not serve reflection); rmd=1: the reflection API demands the configured reflect_metadata. Combined with
+// every pool shape (instances, shared client pool on/off) by the callers.
+func netKV(r *rand.Rand) string {
+	out := ""
+	if r.Intn(3) == 0 {
+		out += " rp=1"
+	}
+	if r.Intn(5) == 0 {
+		out += " rmd=1"
+	}
+	return out
+}
+
+const placeholderLetters = "UAIGRSX"
+
+// genG: the global constant: letters, digits, white space (inside and, sometimes, at its ends: gRPC carries a
+// metadata value as written) and characters an HTML-minded or URL-minded encoder would change.
+func genG(r *rand.Rand) string {
+	g := randText(r, 6, "ghijkl-09  <>&'+=/")
+	if r.Intn(4) != 0 {
+		g = strings.TrimSpace(g)
+	}
+	if g == "" {
+		return "g"
+	}
+	return g
+}
+
+// spell gives every placeholder {L} of a mini-syntax text, with probability 1/2, one of the nine other spellings
+// text/template allows for the same action ({L1} … {L9}: spaces, trim markers, print, a pipeline, define/template,
+// if/else, a $variable, comment + parentheses).
+func spell(r *rand.Rand, s string) string {
+	var b strings.Builder
+	for i := 0; i < len(s); i++ {
+		if s[i] == '{' && i+2 < len(s) && s[i+2] == '}' && strings.IndexByte(placeholderLetters, s[i+1]) >= 0 {
+			b.WriteByte('{')
+			b.WriteByte(s[i+1])
+			if r.Intn(2) == 0 {
+				b.WriteByte(byte('1' + r.Intn(9)))
+			}
+			b.WriteByte('}')
+			i += 2
+			continue
+		}
+		b.WriteByte(s[i])
+	}
+	return b.String()
+}
+
 func schedFor(r *rand.Rand, n, shots int) string {
 	sched := make([]byte, shots)
 	for i := range sched {
@@ -211,7 +265,7 @@ func genJSON(r *rand.Rand) string {
 	for i := range es {
 		es[i] = genEntry(r, i)
 	}
-	return fmt.Sprintf("mode=json n=%d sc=%d %s oe=%d e=%s", n, pick(r, []int{0, 0, 1, 2}), tmoKV(r), r.Intn(2), strings.Join(es, ";"))
+	return fmt.Sprintf("mode=json n=%d sc=%d %s%s oe=%d e=%s", n, pick(r, []int{0, 0, 1, 2}), tmoKV(r), netKV(r), r.Intn(2), strings.Join(es, ";"))
 }
 
 // genJSONSched: the same entries fired by hand, entry k by instance sched[k] (exact per-entry trace, connections).
@@ -222,7 +276,7 @@ func genJSONSched(r *rand.Rand) string {
 	for i := range es {
 		es[i] = genEntry(r, i)
 	}
-	return fmt.Sprintf("mode=json run=sched n=%d sc=%d %s oe=%d sched=%s e=%s", n, pick(r, []int{0, 0, 1, 2, 3, 7}), tmoKV(r),
+	return fmt.Sprintf("mode=json run=sched n=%d sc=%d %s%s oe=%d sched=%s e=%s", n, pick(r, []int{0, 0, 1, 2, 3, 7}), tmoKV(r), netKV(r),
 		r.Intn(2), schedFor(r, n, k), strings.Join(es, ";"))
 }
 
@@ -256,7 +310,8 @@ func genJSONLong(r *rand.Rand, sched bool) string {
 
 // ---------------------------------------------------------------- scenarios
 
-var mdTemplates = []string{"x-user:u-{U}", "x-g:{G}", "x-const:abc", "x-mix:{G}-{U}~end", "X-Up:{U}{U}", "x-plain:Bearer~zzz", "payload:p-{U}-{G}"}
+var mdTemplates = []string{"x-user:u-{U}", "x-g:{G}", "x-const:abc", "x-mix:{G}-{U}~end", "X-Up:{U}{U}", "x-plain:Bearer~zzz", "payload:p-{U}-{G}",
+	"x-fn:{R}-{S}~{U}", "x-id:{X}", "x-sp:a~{U}~~b~{G}~c", "x-rid:r{R}{X}-{G}", "x-br:{~{U}~}"}
 
 func genScen(r *rand.Rand, engine bool) string {
 	n := pick(r, []int{1, 2, 2, 3, 4})
@@ -270,7 +325,7 @@ func genScen(r *rand.Rand, engine bool) string {
 	if !withAuth && r.Intn(2) == 0 {
 		users = nil
 		for i := 0; i < nu; i++ {
-			users = append(users, c20lib.Enc(randText(r, 6, "abcdefghijk-_ ")+strconv.Itoa(i)))
+			users = append(users, c20lib.Enc(randText(r, 6, "abcdefghijk-_ <&'>=")+strconv.Itoa(i)))
 		}
 	}
 	var calls []string
@@ -287,16 +342,29 @@ func genScen(r *rand.Rand, engine bool) string {
 		if len(md) == 0 && r.Intn(4) != 0 {
 			md = append(md, "x-user:u-{U}")
 		}
-		payload := pick(r, []string{"name:s.{U}", "name:s.{U}", "name:s.n-{U}-{G}"})
-		calls = append(calls, name+"|"+svc+"Hello|"+strings.Join(md, ",")+"|"+payload+"|u")
+		payload := pick(r, []string{"name:s.{U}", "name:s.{U}", "name:s.n-{U}-{G}", "name:s.a~{U}~~{R}~{S}", "name:s.{X}.{U}"})
+		calls = append(calls, name+"|"+svc+"Hello|"+spell(r, strings.Join(md, ","))+"|"+spell(r, payload)+"|u")
 		okCalls = append(okCalls, name)
 	}
 	if withAuth {
 		amd := pick(r, []string{"", "x-user:{U}", "x-g:{G},x-user:login-{U}"})
-		calls = append(calls, "auth|"+svc+"Auth|"+amd+"|login:s.{U},pass:s.{U}|u")
+		calls = append(calls, "auth|"+svc+"Auth|"+spell(r, amd)+"|"+spell(r, "login:s.{U},pass:s.{U}")+"|u")
 		lmd := pick(r, []string{"authorization:Bearer~{A}", "authorization:Bearer~{A},x-uid:{I}", "x-uid:id-{I}-{G}"})
-		calls = append(calls, "list|"+svc+"List|"+lmd+"|user_id:n.{I},token:s.{A}|-")
-		calls = append(calls, "order|"+svc+"Order|authorization:Bearer~{A}|user_id:n.{I},token:s.{A},item_id:n.{I}0"+strconv.Itoa(10+r.Intn(89))+"|-")
+		calls = append(calls, "list|"+svc+"List|"+spell(r, lmd)+"|"+spell(r, "user_id:n.{I},token:s.{A}")+"|-")
+		calls = append(calls, "order|"+svc+"Order|"+spell(r, "authorization:Bearer~{A}")+"|"+spell(r, "user_id:n.{I},token:s.{A},item_id:n.{I}0")+strconv.Itoa(10+r.Intn(89))+"|-")
+	}
+	// variables that do not exist where they are used (the deterministic runs only): the user of a call without
+	// preprocessor, the token / user id of an auth step that has not run (yet) in this shot — in the metadata and in
+	// the payload, in every spelling; a numeric field made of one does not fit its type (400, the shot ends)
+	var peekCalls []string
+	if !engine && r.Intn(4) == 0 {
+		calls = append(calls, "peek|"+svc+"Hello|"+spell(r, pick(r, []string{"x-tok:{A}-{I},x-u:{U}", "x-tok:t{A}", "authorization:Bearer~{A},x-i:{I}{I}"}))+"|"+
+			spell(r, pick(r, []string{"name:s.{A}~{U}", "name:s.{I}", "name:s.x"}))+"|-")
+		peekCalls = append(peekCalls, "peek")
+		if r.Intn(2) == 0 {
+			calls = append(calls, "early|"+svc+"List|"+spell(r, "x-i:{I}")+"|"+spell(r, "user_id:n.{I},token:s.{A}")+"|-")
+			peekCalls = append(peekCalls, "early")
+		}
 	}
 	if !engine {
 		if r.Intn(3) == 0 {
@@ -329,23 +397,27 @@ func genScen(r *rand.Rand, engine bool) string {
 				reqs = append(reqs, pick(r, okCalls))
 			}
 		}
+		if len(peekCalls) > 0 && r.Intn(3) != 0 {
+			pos := r.Intn(len(reqs) + 1)
+			reqs = append(reqs[:pos], append([]string{pick(r, peekCalls)}, reqs[pos:]...)...)
+		}
 		if len(failCalls) > 0 && r.Intn(2) == 0 {
 			pos := r.Intn(len(reqs) + 1)
 			reqs = append(reqs[:pos], append([]string{pick(r, failCalls)}, reqs[pos:]...)...)
 		}
 		scns = append(scns, fmt.Sprintf("s%d:%d:%s", s, 1+r.Intn(3), strings.Join(reqs, "+")))
 	}
-	base := fmt.Sprintf("mode=scen run=%%s n=%d %s users=%s g=%s calls=%s scns=%s", n, tmoKV(r),
-		strings.Join(users, ","), c20lib.Enc(randText(r, 5, "ghijkl-09")), strings.Join(calls, ";"), strings.Join(scns, ";"))
+	base := fmt.Sprintf("mode=scen run=@RUN@ n=%d %s%s users=%s g=%s calls=%s scns=%s", n, tmoKV(r), netKV(r),
+		strings.Join(users, ","), c20lib.Enc(genG(r)), strings.Join(calls, ";"), strings.Join(scns, ";"))
 	if engine {
-		return fmt.Sprintf(base, "engine") + fmt.Sprintf(" shots=%d", 8+r.Intn(30))
+		return strings.Replace(base, "@RUN@", "engine", 1) + fmt.Sprintf(" shots=%d", 8+r.Intn(30))
 	}
 	l := 3 + r.Intn(9)
 	sched := make([]byte, l)
 	for i := range sched {
 		sched[i] = byte('0' + r.Intn(n))
 	}
-	return fmt.Sprintf(base, "sched") + " sched=" + string(sched)
+	return strings.Replace(base, "@RUN@", "sched", 1) + " sched=" + string(sched)
 }
 
 // genScenCollide: names chosen so that "<scenario>_<call>" of one step equals that of another step with different
@@ -375,12 +447,55 @@ func genScenCollide(r *rand.Rand, engine bool) string {
 	if r.Intn(2) == 0 {
 		scns[0], scns[1] = scns[1], scns[0]
 	}
-	base := fmt.Sprintf("mode=scen run=%%s n=%d tmo=0 users=%s g=%s calls=%s scns=%s", n, strings.Join(users, ","),
+	base := fmt.Sprintf("mode=scen run=@RUN@ n=%d tmo=0 users=%s g=%s calls=%s scns=%s", n, strings.Join(users, ","),
 		c20lib.Enc(randText(r, 4, "ghijkl")), strings.Join(calls, ";"), strings.Join(scns, ";"))
 	if engine {
-		return fmt.Sprintf(base, "engine") + fmt.Sprintf(" shots=%d", 6+r.Intn(10))
+		return strings.Replace(base, "@RUN@", "engine", 1) + fmt.Sprintf(" shots=%d", 6+r.Intn(10))
 	}
-	return fmt.Sprintf(base, "sched") + " sched=" + schedFor(r, n, 4+r.Intn(5))
+	return strings.Replace(base, "@RUN@", "sched", 1) + " sched=" + schedFor(r, n, 4+r.Intn(5))
+}
+
+// genScenSpelled: one call whose metadata has one key per spelling (x-0 … x-9), each with a placeholder written in that
+// spelling between literal text with white space around it (so that the trim markers have something to trim), the
+// letters rotating over variables and template functions; the payload uses further spellings. Every spelling
+// text/template allows for an action is exercised by every run, in the metadata and in the payload.
+func genScenSpelled(r *rand.Rand, engine bool) string {
+	letters := []byte(placeholderLetters)
+	r.Shuffle(len(letters), func(a, b int) { letters[a], letters[b] = letters[b], letters[a] })
+	withAuth := r.Intn(2) == 0
+	var md []string
+	k := 0
+	next := func() byte {
+		for {
+			l := letters[k%len(letters)]
+			k++
+			if withAuth || (l != 'A' && l != 'I') {
+				return l
+			}
+		}
+	}
+	for d := 0; d <= 9; d++ {
+		l := next()
+		lit := pick(r, []string{"p~%s~q", "%s", "~~%s~~.", "a%sb", "-~%s"})
+		v := fmt.Sprintf(lit, fmt.Sprintf("{%c%d}", l, d))
+		md = append(md, fmt.Sprintf("x-%d:%s", d, v))
+	}
+	pd := r.Perm(10)
+	payload := fmt.Sprintf("name:s.n~{U%d}~{G%d}~{R%d}{S%d}~.{X%d}", pd[0], pd[1], pd[2], pd[3], pd[4])
+	n := pick(r, []int{1, 2, 3})
+	var calls []string
+	reqs := "sp+sp"
+	if withAuth {
+		calls = append(calls, "auth|"+svc+"Auth||"+spell(r, "login:s.{U},pass:s.{U}")+"|u")
+		reqs = "auth+sp+sp"
+	}
+	calls = append(calls, "sp|"+svc+"Hello|"+strings.Join(md, ",")+"|"+payload+"|u")
+	base := fmt.Sprintf("mode=scen run=@RUN@ n=%d tmo=0%s users=%s g=%s calls=%s scns=s:1:%s", n, netKV(r), "3,1,2", c20lib.Enc(genG(r)),
+		strings.Join(calls, ";"), reqs)
+	if engine {
+		return strings.Replace(base, "@RUN@", "engine", 1) + fmt.Sprintf(" shots=%d", 4+r.Intn(6))
+	}
+	return strings.Replace(base, "@RUN@", "sched", 1) + " sched=" + schedFor(r, n, 3+r.Intn(4))
 }
 
 // genScenSlow: every call is fast, but the sleeps between the calls of one scenario add up to more than the
@@ -393,11 +508,11 @@ func genScenSlow(r *rand.Rand, engine bool) string {
 		reqs = fmt.Sprintf("h+sleep%d+g+sleep%d+g", sl+sl/2, sl/2+200)
 	}
 	calls := "h|" + svc + "Hello|x-user:u-{U}|name:s.{U}|u;g|" + svc + "Hello|x-g:{G}|name:s.g|-"
-	base := fmt.Sprintf("mode=scen run=%%s n=%d tmoms=3000 users=1,2 g=%s calls=%s scns=slow:1:%s", 1+r.Intn(2), c20lib.Enc(randText(r, 3, "ghi")), calls, reqs)
+	base := fmt.Sprintf("mode=scen run=@RUN@ n=%d tmoms=3000 users=1,2 g=%s calls=%s scns=slow:1:%s", 1+r.Intn(2), c20lib.Enc(randText(r, 3, "ghi")), calls, reqs)
 	if engine {
-		return fmt.Sprintf(base, "engine") + " shots=2"
+		return strings.Replace(base, "@RUN@", "engine", 1) + " shots=2"
 	}
-	return fmt.Sprintf(base, "sched") + " sched=0"
+	return strings.Replace(base, "@RUN@", "sched", 1) + " sched=0"
 }
 
 // ---------------------------------------------------------------- exhaustive small enumerations (thorough tier)
@@ -492,11 +607,14 @@ func genExhaustive() []string {
 }
 
 func gen(r *rand.Rand, tier string) []string {
-	nj, njs, nl, ns, nc, ne, nsl := 40, 40, 1, 60, 10, 6, 1
+	nj, njs, nl, ns, nc, ne, nsl, nsp := 40, 40, 1, 60, 10, 6, 1, 6
 	if tier == "thorough" {
-		nj, njs, nl, ns, nc, ne, nsl = 3000, 3000, 24, 5000, 600, 300, 10
+		nj, njs, nl, ns, nc, ne, nsl, nsp = 3000, 3000, 24, 5000, 600, 300, 10, 400
 	}
-	out := []string{"mode=table"}
+	out := []string{"mode=table", "mode=table rp=1", "mode=table rp=1 rmd=1", "mode=table rmd=1"}
+	for i := 0; i < nsp; i++ {
+		out = append(out, genScenSpelled(r, i%6 == 5))
+	}
 	if tier == "thorough" {
 		out = append(out, genExhaustive()...)
 	}
